@@ -15,6 +15,13 @@ sits (top of the escaping chain, inside it, beside it in a callee that completes
 failure that is itself handled); raising in the handler, in the handling formula itself, through an
 `except` that does not match; the shapes of the handled and of the escaping chain (length, cached /
 uncached cells, formulas given as lambdas, recursion); earlier top-level failures and retries.
+Family `blocks`: formulas that evaluate cells while an exception is passing through them – the block of
+`except <kind>: audit(x); raise` and of `try: … finally: audit(x)` – so that elements complete normally between the
+roll-back of the inner and of the outer part of the escaping chain.  Varied: the block kind and its `except`
+clause (matching / catch-all / not matching), where it sits (top of the chain, inside it, at two levels, after
+handled failures, inside the handler of another `try`, on the way out of a value), the audit (cached / uncached /
+lambda / a chain / two calls / already held / handling a failure of its own inside / failing itself), the kind and
+shape of the escaping chain, the history.
 """
 import itertools
 
@@ -31,10 +38,13 @@ CFG = {
     "model_obs": ["handled"],
     "maxdepths": [None, None, 5, 9],
     "raise_p": 0.12, "none_p": 0.06, "catch_all_p": 0.35,
-    "fail_cell_p": 0.2, "handled_seq_p": 0.3, "lam_p": 0.25,
+    "fail_cell_p": 0.2, "handled_seq_p": 0.3, "lam_p": 0.25, "block_p": 0.07,
     "rule": "scenario families (k handled failures, then an escaping one, in ONE top-level evaluation: kinds, "
             "catch clauses, position of the handler, chain shapes through cached/uncached/lambda/recursive cells, "
-            "earlier failures and retries) and random programs whose formulas fail at every position of chains "
+            "earlier failures and retries; family `blocks`: a cells evaluated WHILE the exception passes through a "
+            "formula - `except K: audit(x); raise` and `try … finally: audit(x)` at the top of / inside / at two "
+            "levels of the escaping chain, audits that are cached, uncached, lambdas, chains, already held, that "
+            "handle failures of their own, that fail) and random programs whose formulas fail at every position of chains "
             "through cached, uncached and lambda cells, with try/except around failing callees before and after "
             "the escaping failure; non-trivial = a program with an escaping failure of chain length >= 2 in a "
             "top-level evaluation in which formulas had handled at least one failure themselves (measured on the "
@@ -167,6 +177,100 @@ def scenario(label, khs, hflav, ke, eflav, pos, mode="mix", hist="full"):
             "maxdepth": 12 if ("deep" in khs or ke == "deep") else None, "ops": ops, "label": label}
 
 
+AUDITS = ["c", "u", "l", "v", "cc", "uc", "2", "h", "hu", "held", "f", "fu"]
+WHERES = ["top", "mid", "midu", "both", "afterhandled", "inhandler", "value"]
+BLOCKS = ["re-all", "re-kind", "re-nomatch", "fin"]
+
+
+def block_scenario(label, ke, eflav, where, block, audit, hist="full"):
+    """One evaluation whose escaping chain passes through a formula that evaluates cells in an except-reraise /
+    finally block.  ke/eflav: kind and shape of the escaping chain; where: position of the block; block: its kind;
+    audit: what the block evaluates."""
+    P = _Prog()
+    E = P.chain(eflav, ke)
+    H = P.chain("c", 1)                       # a failing cells for audits that handle a failure themselves
+    body = ("add", P0, _lit(100))
+    if audit in ("c", "u", "l", "v"):
+        A = P.cell(body, audit)
+    elif audit in ("cc", "uc"):
+        A = P.cell(("add", _call(P.cell(body, "c"), P0), _lit(1)), audit[0])
+    elif audit in ("h", "hu"):
+        A = P.cell(_seq([("try", _call(H, P0), "all", _lit(0)), ("try", _call(H, ("add", P0, _lit(1))), "k1", _lit(0))],
+                        body), "c" if audit == "h" else "u")
+    elif audit in ("f", "fu"):
+        A = P.chain("cc" if audit == "f" else "uc", 2)
+    else:           # "2", "held"
+        A = P.cell(body, "c")
+    bexpr = _call(A, ("add", P0, _lit(2)))
+    if audit == "2":
+        bexpr = ("add", bexpr, _call(P.cell(("mul", P0, _lit(3)), "u"), P0))
+
+    def blk(x):
+        if block == "fin":
+            return ("tryfin", x, bexpr)
+        if block == "re-all":
+            c = "all"
+        elif block == "re-nomatch":
+            c = "k%d" % ((ke + 1) % 4 if isinstance(ke, int) else 0)
+        else:
+            c = {"noneret": "noneret", "deep": "deep"}.get(ke) or ("k%d" % ke if ke != 6 else "k0")
+        return ("tryre", x, c, bexpr)
+
+    esc = _call(E, P0)
+    tries = [("try", _call(H, ("add", P0, _lit(5 + i))), ("all", "k1")[i % 2], _lit(i)) for i in range(2)]
+    if where == "top":
+        top = P.cell(blk(esc))
+    elif where in ("mid", "midu"):
+        mid = P.cell(("add", blk(esc), _lit(1)), "u" if where == "midu" else "c")
+        top = P.cell(_call(mid, P0))
+    elif where == "both":
+        mid = P.cell(blk(esc), "c")
+        top = P.cell(blk(_call(mid, P0)))
+    elif where == "afterhandled":
+        top = P.cell(_seq(tries, blk(esc)))
+    elif where == "inhandler":
+        top = P.cell(("try", _call(H, P0), "all", blk(esc)))
+    elif where == "value":      # the block on the way out of a VALUE, the failure afterwards
+        okc = P.cell(("add", P0, _lit(1)), "c")
+        top = P.cell(_seq([blk(_call(okc, P0))], esc))
+    else:
+        raise ValueError(where)
+    t = str(top)
+    pre = [["eval", str(A), "3"]] if audit == "held" else []
+    if hist == "fresh":
+        ops = pre + [["eval", t, "1"]]
+    else:
+        ops = [["eval", str(E), "2"]] + pre + [["eval", t, "1"], ["eval", t, "1"], ["eval", t, "2"], ["clear", str(A)],
+                                             ["eval", t, "1"], ["eval", str(H), "1"], ["eval", t, "4"]]
+    return {"cells": P.cells, "refs": {0: 1, 1: 2, 2: 3, 3: 4}, "n_rn": 2,
+            "maxdepth": 14 if ke == "deep" else None, "ops": ops, "label": label}
+
+
+def block_scenarios(rng, n_random):
+    out = []
+
+    def add(ke, ef, where, block, audit, hist="full"):
+        out.append(block_scenario("blocks/esc=%s e=%s %s %s audit=%s %s" % (ke, ef, where, block, audit, hist),
+                                  ke, ef, where, block, audit, hist))
+    # position x block kind (plain cached audit), audits x block kind (inside the chain)
+    for where, block in itertools.product(WHERES, BLOCKS):
+        add(0, "cc", where, block, "c")
+    for audit, block in itertools.product(AUDITS, ("re-all", "fin", "re-kind")):
+        add(1, "uc", "mid", block, audit)
+    # kinds and shapes of the escaping chain
+    for i, ke in enumerate([0, 1, 2, 3, 6, "noneret", "deep"]):
+        for j, block in enumerate(("re-all", "re-kind", "fin")):
+            add(ke, SHAPES[(i + j) % len(SHAPES)], ("mid", "top", "both")[(i + j) % 3], block, AUDITS[(2 * i + j) % 6])
+    for where in ("top", "mid"):
+        for block in ("re-kind", "fin"):
+            add(0, "c", where, block, "u", "fresh")
+    kinds_e = [0, 1, 2, 3, 6, "noneret", "deep"]
+    for _ in range(n_random):
+        add(rng.choice(kinds_e), rng.choice(ALL_SHAPES), rng.choice(WHERES), rng.choice(BLOCKS), rng.choice(AUDITS),
+            rng.choice(["full", "full", "fresh"]))
+    return out
+
+
 def _khs(kh, ke, k):
     """k handled kinds: the first of kind kh, then alternating with the kind that will escape (when a formula can
     handle it) – both `same kind as the escaping one` and `another kind` occur among the handled ones"""
@@ -240,7 +344,19 @@ def oracle(case, recs, out, stats):
                 except FormulaError:
                     orig = mx.get_error()
                     tb = mx.get_traceback()
-                except BaseException:
+                except BaseException as ex:
+                    if not _inside_start_exec(ex):
+                        continue        # refused before anything ran (wrong arity at top level)
+                    # the evaluation ran and failed, but what came out is not the FormulaError
+                    stats["oracle_tracebacks_examined"] += 1
+                    orig = mx.get_error()
+                    chain = real_chain(orig, codes) if orig is not None else []
+                    out.fail("the failing evaluation raised %s(%s) instead of FormulaError; get_traceback() = %s, the "
+                             "executing chain of the %s was %s" % (
+                                 type(ex).__name__, ex, [(node_s(impl.cid_of(n.obj._impl), tuple(n.args)), ln)
+                                                         for n, ln in mx.get_traceback()],
+                                 err_kind(orig) if orig is not None else "?",
+                                 [(node_s(c_, k_), ln) for c_, k_, ln in chain]), hist)
                     continue
             stats["oracle_tracebacks_examined"] += 1
             got = [(impl.cid_of(n.obj._impl), tuple(n.args), ln) for n, ln in tb]
@@ -264,6 +380,15 @@ def oracle(case, recs, out, stats):
     return nontrivial
 
 
+def _inside_start_exec(ex):
+    tb = ex.__traceback__
+    while tb is not None:
+        if tb.tb_frame.f_code.co_name == "_start_exec":
+            return True
+        tb = tb.tb_next
+    return False
+
+
 def _report(out, got, want, hist, case, kind):
     gn = [(c, k) for c, k, _ in got]
     wn = [(c, k) for c, k, _ in want]
@@ -280,7 +405,8 @@ def _report(out, got, want, hist, case, kind):
 
 def run(ctx, out):
     X.run_family(ctx, out, CFG, oracle, 200, 3000,
-                 structured=scenarios(ctx.rng("scenarios"), ctx.n(40, 400)))
+                 structured=scenarios(ctx.rng("scenarios"), ctx.n(40, 400)) +
+                 block_scenarios(ctx.rng("blocks"), ctx.n(30, 400)))
     out.assumptions.append("line numbers are CPython's; they are checked against the interpreter's own traceback of "
                            "the original exception by the oracle, not modelled in Lean")
 
